@@ -7,7 +7,7 @@ import numpy as np
 from hypothesis import strategies as st
 
 from vlib import cards, env, kin
-from vlib.api import Sub, oracle
+from vlib.api import Sub, oracle, run_pinned
 
 RULE = (
     "(a) acceptance-rejection: synthetic proposal (uniform or known importance density on [0,1]) and target pdf with a narrow peak so the bound must be raised mid-run, small max_N to force several rounds, "
@@ -551,6 +551,7 @@ def run_bins(ctx):
 
 
 SUBCHECKS = [
+    Sub("pinned", run_pinned, shards=(1, 1), budget=(100, 300)),
     Sub("ar_sampling", run_ar, shards=(4, 8), budget=(200, 2400), weight=2),
     Sub("toys", run_toys, shards=(4, 8), budget=(250, 3000), weight=3),
     Sub("inverse_transform", run_inverse, shards=(4, 8), budget=(200, 2400), weight=2),
